@@ -95,7 +95,7 @@ def cases(tier, seed):
                 pl = prio_lists[idx % len(prio_lists)]
                 out.append({"k": k, "rgs": rgs, "prio": pl, "pat": pat[0], "pat_args": pat[1], "n": n, "tied": False,
                             "inherit": None, "real": idx % 6 == 0, "op": OPS4[(idx // 6 + idx) % 4]})
-        for inh in ("isolate", "match_links", "rf2", "transform", "isolate_dot", "isolate_H", "isolate_cli_H", "isolate_cli_rel", "isolate_other_cwd", "isolate_basedir", "isolate_hash_arg", "rf2_hash_arg"):
+        for inh in ("isolate", "match_links", "rf2", "transform", "isolate_dot", "isolate_H", "isolate_cli_H", "isolate_cli_rel", "isolate_cli_abs_dots", "isolate_cli_abs_link", "isolate_other_cwd", "isolate_basedir", "isolate_hash_arg", "rf2_hash_arg"):
             for pl in ([], ["top"], ["most-nested"], ["bottom", "least-nested"]):
                 idx += 1
                 out.append({"k": k, "rgs": rgs, "prio": pl, "pat": "none", "pat_args": [], "n": None, "tied": False,
@@ -328,6 +328,9 @@ def evaluate(case):
         elif inh == "isolate_cli_rel":
             # as isolate_cli, but the roots are spelled relative to the working directory (r1, ./r1x/)
             opts["isolate_roots"] = [sc.path("r1").decode(), sc.path("r1x").decode()]
+        elif inh in ("isolate_cli_abs_dots", "isolate_cli_abs_link"):
+            # as isolate_cli, all roots absolute but not canonical: through '..' / through a symbolic link to the tree
+            opts["isolate_roots"] = [sc.path("r1").decode(), sc.path("r1x").decode()]
         elif inh == "isolate_cli":
             # the report is made without --isolate; the dedupe command gets it with the roots
             opts["isolate_roots"] = [sc.path("r1").decode(), sc.path("r1x").decode()]
@@ -370,6 +373,12 @@ def evaluate(case):
                 dargs += ["--isolate", r]
         if inh == "isolate_cli_rel":
             dargs += ["--isolate", "r1", "--isolate", "./r1x/"]
+        if inh == "isolate_cli_abs_dots":
+            dargs += ["--isolate", os.path.join(sc.tree, "r1x", "..", "r1"), "--isolate", os.path.join(sc.tree, "r1", "..", "r1x") + "/"]
+        if inh == "isolate_cli_abs_link":
+            lnk = os.path.join(sc.root, "lnk_tree")
+            os.symlink(sc.tree, lnk)
+            dargs += ["--isolate", os.path.join(lnk, "r1"), "--isolate", os.path.join(lnk, "r1x")]
         for pr in case["prio"]:
             dargs += ["--priority", pr]
         if case["n"]:
